@@ -139,9 +139,17 @@ func parsePlugins(ifi rawInterface, maxInterval time.Duration, epoch time.Time) 
 			base = *p.Prefix
 		}
 
-		prefix, err := netip.ParsePrefix(base)
+		// The prefix must be a canonical IPv6 prefix of one of the lengths
+		// RFC 8781 can encode.
+		prefix, err := parseIPPrefix(base)
 		if err != nil {
-			return nil, err
+			return nil, fmt.Errorf("failed to parse PREF64 prefix %q: %v", base, err)
+		}
+
+		switch prefix.Bits() {
+		case 96, 64, 56, 48, 40, 32:
+		default:
+			return nil, fmt.Errorf("PREF64 prefix %q must have a length of 96, 64, 56, 48, 40, or 32", base)
 		}
 
 		plugins = append(plugins, plugin.NewPREF64(prefix, maxInterval))
@@ -158,6 +166,10 @@ func parseDNSSL(d rawDNSSL, maxInterval time.Duration) (*plugin.DNSSL, error) {
 	lifetime, err := parseDuration(d.Lifetime, 3*maxInterval)
 	if err != nil {
 		return nil, fmt.Errorf("invalid lifetime: %v", err)
+	}
+
+	if lifetime < 0 || lifetime > ndp.Infinity {
+		return nil, errors.New("lifetime must be between 0 and infinite")
 	}
 
 	if len(d.DomainNames) == 0 {
@@ -213,8 +225,8 @@ func parsePrefix(p rawPrefix, epoch time.Time) (*plugin.Prefix, error) {
 		return nil, fmt.Errorf("invalid valid lifetime: %v", err)
 	}
 
-	if valid == 0 {
-		return nil, errors.New("valid lifetime must be non-zero")
+	if valid <= 0 || valid > ndp.Infinity {
+		return nil, errors.New("valid lifetime must be positive and no greater than infinite")
 	}
 
 	preferred, err := parseDuration(p.PreferredLifetime, 4*time.Hour)
@@ -223,8 +235,8 @@ func parsePrefix(p rawPrefix, epoch time.Time) (*plugin.Prefix, error) {
 	}
 
 	// Use defaults for auto values.
-	if preferred == 0 {
-		return nil, errors.New("preferred lifetime must be non-zero")
+	if preferred <= 0 || preferred > ndp.Infinity {
+		return nil, errors.New("preferred lifetime must be positive and no greater than infinite")
 	}
 
 	// See: https://tools.ietf.org/html/rfc4861#section-4.6.2.
@@ -297,8 +309,8 @@ func parseRoute(r rawRoute, epoch time.Time) (*plugin.Route, error) {
 		return nil, fmt.Errorf("invalid lifetime: %v", err)
 	}
 
-	if lt == 0 {
-		return nil, errors.New("lifetime must be non-zero")
+	if lt <= 0 || lt > ndp.Infinity {
+		return nil, errors.New("lifetime must be positive and no greater than infinite")
 	}
 
 	// Deprecated routes cannot have an infinite lifetime.
@@ -326,6 +338,10 @@ func parseRDNSS(d rawRDNSS, maxInterval time.Duration) (*plugin.RDNSS, error) {
 	lifetime, err := parseDuration(d.Lifetime, 3*maxInterval)
 	if err != nil {
 		return nil, fmt.Errorf("invalid lifetime: %v", err)
+	}
+
+	if lifetime < 0 || lifetime > ndp.Infinity {
+		return nil, errors.New("lifetime must be between 0 and infinite")
 	}
 
 	if len(d.Servers) == 0 {
